@@ -146,7 +146,7 @@ theorem RB.stepRel (K : Consts) (ts : TypeSystem) (tsIdx ci : Nat) : StepRel K t
     intro hb
     have hname : ∃ v : View, Cas.getViewRec s'.cas name = some v ∧ v.sofa.xid ≤ s'.maxId ∧
         v.sofa.sofaNum ≤ s'.maxNum :=
-      ⟨w, hw, by rw [hmi, hwx]; exact Int.le_max_right _ _, by rw [hmn]; exact Int.le_max_right _ _⟩
+      ⟨w, hw, by rw [hmi]; exact Int.le_max_right _ _, by rw [hmn]; exact Int.le_max_right _ _⟩
     refine ⟨?_, ?_⟩
     · intro q hq
       rw [hfss] at hq
@@ -265,7 +265,7 @@ theorem RK.stepRel (K : Consts) (ts : TypeSystem) (tsIdx ci : Nat) : StepRel K t
     · intro n hn
       by_cases hnn : n = name
       · rw [hnn]
-        exact ⟨w, hw, by rw [hmi, hwx]; exact Int.le_max_right _ _, by rw [hmn]; exact Int.le_max_right _ _⟩
+        exact ⟨w, hw, by rw [hmi]; exact Int.le_max_right _ _, by rw [hmn]; exact Int.le_max_right _ _⟩
       · obtain ⟨v, hv, b1, b2⟩ := hn
         refine ⟨v, (hoth n hnn).trans hv, ?_, ?_⟩
         · rw [hmi]; exact Int.le_trans b1 (Int.le_max_left _ _)
@@ -286,11 +286,11 @@ theorem RK.stepRel (K : Consts) (ts : TypeSystem) (tsIdx ci : Nat) : StepRel K t
 theorem setFs_key_self (l : List (Int × Val)) (k : Int) (v : Val) : k ∈ (setFs l k v).map (·.1) :=
   List.mem_map.mpr ⟨(k, v), setFs_self l k v, rfl⟩
 
-/-- every sofa element the sofa pass went over is registered and its view is bounded -/
+/-- the view of every sofa element the sofa pass went over is bounded -/
 theorem sofaPass_doc (K : Consts) (ts : TypeSystem) (tsIdx ci : Nat) (all : List JFs) (l : List JFs) :
     ∀ s r, sofaPass K ts tsIdx ci all l s = .ok r →
       ∀ j ∈ l, j.ty = SOFA → ∃ (i : Int) (n : String), j.id = some i ∧ sofaIdOf j = some n ∧
-        i ∈ r.fss.map (·.1) ∧ VB r.maxId r.maxNum r.cas n := by
+        VB r.maxId r.maxNum r.cas n := by
   induction l with
   | nil => intro s r _ j hj; cases hj
   | cons j0 rest ih =>
@@ -300,13 +300,68 @@ theorem sofaPass_doc (K : Consts) (ts : TypeSystem) (tsIdx ci : Nat) (all : List
       rcases List.mem_cons.mp hj with rfl | hj
       · obtain ⟨fsId, name, w, hid, hnm, hfss, _, _, hw, hwx, _, hmi, hmn⟩ := parseSofa_res ci s1 s2 j h2
         have hk := sofaPass_rel (RK.stepRel K ts tsIdx ci) all rest s2 r h3
-        refine ⟨fsId, name, hid, hnm, hk.1 _ (by rw [hfss]; exact setFs_key_self _ _ _), hk.2 _ ?_⟩
-        exact ⟨w, hw, by rw [hmi, hwx]; exact Int.le_max_right _ _, by rw [hmn]; exact Int.le_max_right _ _⟩
+        refine ⟨fsId, name, hid, hnm, hk.2 _ ?_⟩
+        exact ⟨w, hw, by rw [hmi]; exact Int.le_max_right _ _, by rw [hmn]; exact Int.le_max_right _ _⟩
       · exact ih s2 r h3 j hj hty
     · rw [sofaPass_cons_skip hty0] at h
       rcases List.mem_cons.mp hj with rfl | hj
       · exact absurd hty hty0
       · exact ih s r h j hj hty
+
+/-! ### distinct sofa names: every sofa element is registered under its own id -/
+
+theorem parseById_cas {K : Consts} {ts : TypeSystem} {tsIdx : Nat} (i : Int) (l : List JFs) :
+    ∀ s r, parseById K ts tsIdx i l s = .ok r → r.cas = s.cas := by
+  induction l with
+  | nil => intro s r h; rw [parseById] at h; cases h; rfl
+  | cons j rest ih =>
+    intro s r h
+    rw [parseById] at h
+    split at h
+    · split at h
+      · cases h
+      · rename_i s1 h1
+        obtain ⟨_, _, _, hcas, _⟩ := parseFs_res K ts tsIdx s s1 j h1
+        exact (ih _ _ h).trans hcas
+    · exact ih _ _ h
+
+/-- under `SofaNamesDistinct`, as long as no view other than the initial one that a sofa element of the list names
+    exists yet, every sofa element is registered under its own id -/
+theorem sofaPass_doc_distinct (K : Consts) (ts : TypeSystem) (tsIdx ci : Nat) (all : List JFs) (l : List JFs) :
+    ∀ s r, sofaPass K ts tsIdx ci all l s = .ok r → SofaNamesDistinct l →
+      (∀ j ∈ l, j.ty = SOFA → ∀ n, sofaIdOf j = some n → n ≠ Cas.INITIAL_VIEW → Cas.getViewRec s.cas n = none) →
+      ∀ j ∈ l, j.ty = SOFA → ∃ i : Int, j.id = some i ∧ i ∈ r.fss.map (·.1) := by
+  induction l with
+  | nil => intro s r _ _ _ j hj; cases hj
+  | cons j0 rest ih =>
+    intro s r h hd hnew j hj hty
+    have hd' := List.pairwise_cons.mp hd
+    by_cases hty0 : j0.ty = SOFA
+    · obtain ⟨s1, s2, h1, h2, h3⟩ := sofaPass_cons_ok hty0 h
+      have hc1 : s1.cas = s.cas := by
+        rcases h1 with rfl | ⟨i, h1⟩
+        · rfl
+        · exact parseById_cas i all _ _ h1
+      obtain ⟨fsId, name, w, hid, hnm, hfss, _, _, hw, hwx, hoth, _, _⟩ := parseSofa_res ci s1 s2 j0 h2
+      rcases List.mem_cons.mp hj with rfl | hj
+      · have hk := sofaPass_rel (RK.stepRel K ts tsIdx ci) all rest s2 r h3
+        refine ⟨fsId, hid, hk.1 _ ?_⟩
+        rcases hwx with hwx | ⟨hni, v0, hv0, _, _⟩
+        · rw [hfss, hwx]; exact setFs_key_self _ _ _
+        · rw [hc1, hnew j List.mem_cons_self hty name hnm hni] at hv0
+          cases hv0
+      · refine ih s2 r h3 hd'.2 ?_ j hj hty
+        intro j' hj' hty' n hn' hni'
+        have hne : n ≠ name := by
+          intro e
+          subst e
+          exact hni' (hd'.1 j' hj' hty0 hty' n hnm hn')
+        rw [hoth n hne, hc1]
+        exact hnew j' (List.mem_cons_of_mem _ hj') hty' n hn' hni'
+    · rw [sofaPass_cons_skip hty0] at h
+      rcases List.mem_cons.mp hj with rfl | hj
+      · exact absurd hty hty0
+      · exact ih s r h hd'.2 (fun j' hj' => hnew j' (List.mem_cons_of_mem _ hj')) j hj hty
 
 /-- every other element the structure pass went over is registered -/
 theorem fsPass_doc (K : Consts) (ts : TypeSystem) (tsIdx ci : Nat) (l : List JFs) :
